@@ -11,36 +11,40 @@ Lemma observer_kinds x : is_mutator x = false -> is_proved_obs x = true \/ is_se
 Proof. destruct x; cbn; intros H; try discriminate; auto. Qed.
 
 Section Refine6.
+(** capacity of the object and of the other object *)
 Variable L : N.
 Hypothesis HL : CapOk L.
+Variable Lo : N.
+Hypothesis HLo : CapOk Lo.
 
 (** every observing operation *)
 Theorem obs_all_refines s o x :
-  Inv L s -> Inv L o -> Bounded x -> CstrsOk x -> FindOk s o x -> is_mutator x = false ->
+  Inv L s -> Inv Lo o -> Bounded x -> CstrsOk x -> FindOk s o x -> cap_ok (Lo =? L) x = true ->
+  is_mutator x = false ->
   forall cs' cos' rs, std_step (abs s) (abs o) x = Some (cs', cos', rs) ->
   step L s o x = Ok (s, o, rs) /\ cs' = abs s /\ cos' = abs o.
 Proof.
-  intros Hs Ho HB HC HF Hm cs' cos' rs Hstd.
+  intros Hs Ho HB HC HF Hcap Hm cs' cos' rs Hstd.
   destruct (observer_kinds x Hm) as [H|H].
-  - apply (obs_refines L HL s o x Hs Ho HB HC H cs' cos' rs Hstd).
-  - apply (search_refines L HL s o x Hs Ho HB HC HF H cs' cos' rs Hstd).
+  - apply (obs_refines L HL Lo HLo s o x Hs Ho HB HC H cs' cos' rs Hstd).
+  - apply (search_refines L HL Lo HLo s o x Hs Ho HB HC HF Hcap H cs' cos' rs Hstd).
 Qed.
 
 (** every operation: the texts after the step are the texts of the specification
     cut at L; an observing operation returns the value of the specification and
     changes nothing *)
 Theorem step_refines s o x :
-  Inv L s -> Inv L o -> Bounded x -> CstrsOk x -> FindOk s o x ->
+  Inv L s -> Inv Lo o -> Bounded x -> CstrsOk x -> FindOk s o x -> cap_ok (Lo =? L) x = true ->
   forall cs' cos' rs, std_step (abs s) (abs o) x = Some (cs', cos', rs) ->
-  exists s' o' r, step L s o x = Ok (s', o', r) /\ abs s' = cut L cs' /\ abs o' = cut L cos' /\
+  exists s' o' r, step L s o x = Ok (s', o', r) /\ abs s' = cut L cs' /\ abs o' = cut Lo cos' /\
                   (is_mutator x = false -> r = rs /\ s' = s /\ o' = o).
 Proof.
-  intros Hs Ho HB HC HF cs' cos' rs Hstd. destruct (is_mutator x) eqn:Hm.
-  - destruct (mut_refines L HL s o x Hs Ho HB HC Hm cs' cos' rs Hstd) as (s' & o' & r & E & A1 & A2).
+  intros Hs Ho HB HC HF Hcap cs' cos' rs Hstd. destruct (is_mutator x) eqn:Hm.
+  - destruct (mut_refines L HL Lo HLo s o x Hs Ho HB HC Hcap Hm cs' cos' rs Hstd) as (s' & o' & r & E & A1 & A2).
     exists s', o', r. repeat split; try assumption; discriminate.
-  - destruct (obs_all_refines s o x Hs Ho HB HC HF Hm cs' cos' rs Hstd) as (E & -> & ->).
+  - destruct (obs_all_refines s o x Hs Ho HB HC HF Hcap Hm cs' cos' rs Hstd) as (E & -> & ->).
     exists s, o, rs. split; [assumption|]. split; [symmetry; apply (cut_abs L s Hs)|].
-    split; [symmetry; apply (cut_abs L o Ho)|]. intros _. repeat split.
+    split; [symmetry; apply (cut_abs Lo o Ho)|]. intros _. repeat split.
 Qed.
 
 End Refine6.
